@@ -227,7 +227,7 @@ def check(run, replay=None):
             eps = z3.is_true(q.model.eval(V[2], model_completion=True))
             return {'pcs': [0] * 12, 'turn': 0 if w else 1, 'rights': r, 'ep': solve.model_int(q.model, V[3]) if eps else -1}
         a, b_ = conc(A_), conc(B_)
-        ka, kb = native_key(run, **a), native_key(run, **b_)
+        ka, kb = (native_key(run, x['pcs'], x['turn'], x['rights'], x['ep']) for x in (a, b_))
         if ka is not None and ka == kb:
             run.violation('two positions with equal placement but different side/rights/en-passant state have the same key %#x: %s vs %s' % (ka, a, b_),
                           {'a': a, 'b': b_})
